@@ -406,9 +406,52 @@ func (e EvmEngine) genC10(r *Run) Step {
 	att := KeyName("user", c10Attackers[r.Rng.IntN(2)])
 	victim := fmt.Sprintf("$user%d", c10Victims[r.Rng.IntN(2)])
 	view := w.ViewChain(w.Ctx(), st.Chains[0].Name)
-	switch r.Rng.IntN(12) {
+	switch r.Rng.IntN(14) {
+	case 13:
+		// the attacker sends value over the bridge and names a victim wherever the call takes a second address
+		// (refund address): only the caller may pay
+		if r.Pct(50) {
+			t := pc(att, "crosschain", "bridgeCall", "$chain", victim, "", "", fmt.Sprintf("$ext%d", r.Rng.IntN(5)), "", "0", "")
+			t.A["value"] = fmt.Sprint(1000 + r.Rng.IntN(100000))
+			return blk(t)
+		}
+		return blk(pc(att, "token:USDT", "approve", cctypes.GetAddress().Hex(), "1000000000"),
+			pc(att, "crosschain", "bridgeCall", "$chain", victim, "$USDT", fmt.Sprint(1+r.Rng.IntN(300)), fmt.Sprintf("$ext%d", r.Rng.IntN(5)), "", "0", ""))
+	case 12:
+		// a validator misses blocks until it is slashed: from then on a share is worth less than a token there
+		if r.Cfg.World.Validators > 1 {
+			r.Fault("val-downtime")
+			return Step{Kind: "block", DtMs: 6000, N: int(r.Cfg.World.SlashWindow) + 3, A: A("absent", 1+r.Rng.IntN(r.Cfg.World.Validators-1))}
+		}
+		return blk(pc(att, "staking", "withdraw", val()))
 	case 0, 1, 2: // spender pulls shares (within or above the allowance)
 		amt := FX(int64(1 + r.Rng.IntN(400)))
+		if r.Pct(70) {
+			// use an allowance that exists: the spender it was granted to (a key or a contract the attacker cannot
+			// sign for - then it is simply refused), at its validator, for amounts around the allowance
+			vi := c10Victims[r.Rng.IntN(2)]
+			snap := m.snapshot(r, w.Key("user", vi))
+			if keys := sortedKeys(snap.allow); len(keys) > 0 {
+				key := keys[r.Rng.IntN(len(keys))]
+				parts := strings.SplitN(key, "|", 2)
+				for _, ai := range c10Attackers {
+					if w.Key("user", ai).Bech() == parts[1] && snap.allow[key].Sign() > 0 {
+						al := sdkmath.NewIntFromBigInt(snap.allow[key])
+						switch r.Rng.IntN(4) {
+						case 0:
+							amt = al
+						case 1:
+							amt = al.AddRaw(1 + int64(r.Rng.IntN(1000)))
+						case 2:
+							amt = al.QuoRaw(2).AddRaw(1)
+						default:
+							amt = al.MulRaw(104).QuoRaw(100)
+						}
+						return blk(pc(KeyName("user", ai), "staking", "transferFromShares", parts[0], fmt.Sprintf("$user%d", vi), fmt.Sprintf("$user%d", c10Attackers[r.Rng.IntN(2)]), amt.String()))
+					}
+				}
+			}
+		}
 		return blk(pc(att, "staking", "transferFromShares", val(), victim, fmt.Sprintf("$user%d", c10Attackers[r.Rng.IntN(2)]), amt.String()))
 	case 3: // cancel or fee-bump the victim's queued withdrawal
 		for _, p := range view.Pool {
